@@ -27,6 +27,7 @@ type verifLineReader struct {
 	tooLongAt   int   // index of a line longer than the scanner's limit (-1: none)
 	err         error // read error delivered after the last line (nil: clean EOF)
 	gzHeaderErr error // error of gzip.NewReader (only for .gz input)
+	frag        string // unterminated data read before err strikes (a fault in the middle of a line)
 	// native representation
 	crlf, noFinalNL, gz bool
 	buf                 *bytes.Reader
@@ -51,6 +52,9 @@ func (r *verifLineReader) Read(p []byte) (int, error) {
 		if r.tooLongAt >= len(r.lines) && r.tooLongAt >= 0 {
 			sb.WriteString(strings.Repeat("x", 70000) + term)
 		}
+		if r.err != nil {
+			sb.WriteString(r.frag)
+		}
 		content := sb.Bytes()
 		if r.gz {
 			var zb bytes.Buffer
@@ -60,6 +64,8 @@ func (r *verifLineReader) Read(p []byte) (int, error) {
 			content = zb.Bytes()
 			if r.gzHeaderErr != nil {
 				content = []byte("this is not a gzip stream")
+			} else if r.err == gzip.ErrHeader {
+				content = append(content, []byte("this is not the header of a second gzip member")...) // corrupt later member
 			} else if r.err != nil && len(content) > 8 {
 				content = content[:len(content)-8] // truncated stream: the gzip reader reports the failure
 			}
@@ -316,11 +322,29 @@ func H_c08() {
 	// (b) the input fails part-way (read error / truncated or corrupt compressed stream)
 	rerr := errors.New("injected read failure")
 	w2 := &verifWriter{}
-	err2 := processMongoLogStream(&verifLineReader{lines: lines[:1+verifChoose("readFailAfter", 3)], tooLongAt: -1, err: rerr}, w2, nil)
+	frag := ""
+	fragWhole := false
+	switch verifChoose("fragment", 4) {
+	case 1:
+		frag = `{"t":{"$date":"2024-05-01T10:00:00.1` // the fault strikes in the middle of a line
+	case 2:
+		// ... or just before its newline: the line is complete and belongs to the fault-free output
+		frag = `{"t":{"$date":"2024-05-01T10:00:00.123+00:00"},"s":"I","c":"NETWORK","id":1,"ctx":"c","msg":"m","attr":{}}`
+		fragWhole = true
+	case 3:
+		frag = `{"t":{"$date":"2024-05-01T10:00:00.123+00:00"},"s":"I","c":"NETWORK","id":1,"ctx":"c","msg":"m","attr":{"x":1` // cut after a complete value
+	}
+	nread := 1 + verifChoose("readFailAfter", 3)
+	err2 := processMongoLogStream(&verifLineReader{lines: lines[:nread], tooLongAt: -1, err: rerr, frag: frag}, w2, nil)
 	verifAssert(err2 != nil, "read-failure-reported")
+	want2 := want[:nread]
+	if fragWhole {
+		want2 = verifExpected(append(append([]string{}, lines[:nread]...), frag))
+	}
+	verifAssert(len(w2.writes) <= len(want2), "read-prefix-no-partial-line")
 	for i := range w2.writes {
-		if i < len(want) {
-			verifAssert(w2.writes[i] == want[i], "read-prefix-line"+verifItoa(i))
+		if i < len(want2) {
+			verifAssert(w2.writes[i] == want2[i], "read-prefix-line"+verifItoa(i))
 		}
 	}
 	// (c) through the file channel: open error, bad gzip header, read error inside gzip
@@ -333,9 +357,16 @@ func H_c08() {
 	w5 := &verifWriter{}
 	err5 := ProcessMongoLogFile(&verifFileReader{rd: &verifLineReader{lines: lines[:2], tooLongAt: -1, err: rerr}, ext: ".gz"}, "in.log.gz", w5, nil)
 	verifAssert(err5 != nil, "gzip-read-failure-reported")
+	// a corrupt later member of a multi-member gzip file surfaces as gzip.ErrHeader in mid-stream
+	w6 := &verifWriter{}
+	err6 := ProcessMongoLogFile(&verifFileReader{rd: &verifLineReader{lines: lines[:2], tooLongAt: -1, gz: true, err: verifGzipErrHeader()}, ext: ".gz"}, "in.log.gz", w6, nil)
+	verifAssert(err6 != nil, "corrupt-gzip-member-reported")
 }
 
 // verifBar: a progress bar (natively a silent real one; symbolically an opaque bar in an arbitrary state).
 func verifBar(name string) *progressbar.ProgressBar {
 	return progressbar.NewOptions64(int64(verifInt(name+".max")), progressbar.OptionSetWriter(io.Discard))
 }
+
+// verifGzipErrHeader: the error value a gzip reader reports for a corrupt member header.
+func verifGzipErrHeader() error { return gzip.ErrHeader }
